@@ -42,17 +42,28 @@ def perturbed(desc, pars, keys, rng, names):
     """Other parameter values for the symbolic ones (kept admissible)."""
     d2, p2 = copy.deepcopy(desc), dict(pars)
     pv = {}
+
+    def put(name, value):
+        if isinstance(name, tuple):  # entry of a stacked vector parameter
+            vec = pv.setdefault(name[0], {})
+            vec[name[1]] = value
+        else:
+            pv[name] = value
+
     for (eid, attr) in keys:
         f = rng.uniform(0.85, 1.15)
         if eid == "#":
             p2[attr] = pars[attr] * f
-            pv[names[(eid, attr)]] = p2[attr]
+            put(names[(eid, attr)], p2[attr])
         else:
             for grp in ("links", "origins"):
                 for e in d2[grp]:
                     if e["id"] == eid:
                         e[attr] = e[attr] * f
-                        pv[names[(eid, attr)]] = e[attr]
+                        put(names[(eid, attr)], e[attr])
+    for k_, v_ in list(pv.items()):
+        if isinstance(v_, dict):
+            pv[k_] = [v_[i] for i in range(len(v_))]
     return d2, p2, pv
 
 
@@ -63,7 +74,9 @@ def one(M, rec, rng, g, desc, pars, st):
     opts = CC.random_opts(rng, 0.15) if rng.random() < 0.3 else {}
     ops = D.random_ops(desc, rng)
     try:
-        sym = CC.CompileCase(M, rng, desc, pars, st, keys, opts, ops=ops)
+        sym = CC.CompileCase(M, rng, desc, pars, st, keys, opts, ops=ops, stacked=(rng.random() < 0.3))
+        if sym.stacked:
+            rec.count("cases_with_one_stacked_vector_parameter")
     except Exception as e:
         rec.count("symbolic_step_failed")
         rec.seen("failed", repr(e)[:100])
@@ -107,7 +120,8 @@ def one(M, rec, rng, g, desc, pars, st):
             rec.count("layout_checks")
             ni = list(Fs.name_in())
             if compact <= 0:
-                if ni[len(ni) - len(keys):] != list(sym.parameters) or ni[: len(ni) - len(keys)] != list(Fn.name_in()):
+                npar = len(sym.parameters)
+                if ni[len(ni) - npar:] != list(sym.parameters) or ni[: len(ni) - npar] != list(Fn.name_in()):
                     rec.violation(f"{PROP}:compact=0: parameters are not the trailing arguments in declared order",
                                   dict(ctx, names=ni))
             else:
